@@ -230,8 +230,14 @@ def gen_server_plan(rng, prof=None):
                 u['steps'] = rng.choice(pool)
             s['upgrades'] = [u]
             if rng.random() < p['p_second_upgrade']:
-                s['upgrades'].append({'t': ticks(rng, t_up + 0.1,
-                                                 span * 0.9)})
+                if rng.random() < 0.4:
+                    # hard on the heels of the first one (the server may
+                    # still be finishing it)
+                    s['upgrades'].append({'t': ticks(rng, t_up + 0.004,
+                                                     t_up + 0.06)})
+                else:
+                    s['upgrades'].append({'t': ticks(rng, t_up + 0.1,
+                                                     span * 0.9)})
         # pong behaviour
         if rng.random() < p['p_pong_misbehave']:
             k = rng.randint(0, 2)
@@ -569,6 +575,14 @@ def with_lines(gen, hot=None, p=0.25, cluster=0.5, few=0.3, stall=0.35,
             pool += LINE_SERVER
         if cl is not None and cl.get('kind', 'threaded') == 'threaded':
             pool += LINE_CLIENT
+        if not pool and cl is None and srv == 'asyncio' and cluster and \
+                rng.random() < p * cluster:
+            # asyncio server: no pre-emption to add, but the coincidences
+            # are worth having (tasks interleave at their awaits)
+            if rng.random() < few:
+                few_sessions(rng, plan)
+            race_cluster(rng, plan)
+            return plan
         if pool and rng.random() < p:
             line_decorate(rng, plan, [x for x in (hot or []) if x in pool],
                           sorted(set(pool)),
